@@ -32,12 +32,16 @@ Qed.
 Lemma model_int_div a d : int_div a d = GenArith.gen_int_div a d. Proof. reflexivity. Qed.
 Lemma model_int_rem a d : int_rem a d = GenArith.gen_int_rem a d.
 Proof. unfold int_rem, GenArith.gen_int_rem. rewrite Z.geb_leb. reflexivity. Qed.
-(* the except clauses wrapped around the kernels: division by zero becomes the language's division error,
-   a failing modular inverse (ValueError of pow) the arithmetic error *)
-Definition ascii (l:list N) := l.
+(* the except clauses wrapped around the kernels: division by zero becomes the language's division error (and nothing else is mapped to it),
+   a failing modular inverse (ValueError of pow) the arithmetic error; every handler raises a language-level exception class *)
+Definition ZDE : list N := [90;101;114;111;68;105;118;105;115;105;111;110;69;114;114;111;114]%N.                (* "ZeroDivisionError" *)
+Definition DIVERR : list N := [101;114;114;111;114;46;85;110;115;117;115;112;101;99;116;101;100;72;97;110;103;101;117;108;68;105;118;105;115;105;111;110;69;114;114;111;114]%N.   (* "error.UnsuspectedHangeulDivisionError" *)
+Definition handled_as (hs:list (list N * list N)) (exc cls:list N) : bool :=
+  existsb (fun h => if list_eq_dec N.eq_dec (fst h) exc then (if list_eq_dec N.eq_dec (snd h) cls then true else false) else false) hs.
+Definition language_level (cls:list N) : bool :=      (* starts with "error.UnsuspectedHangeul" *)
+  if list_eq_dec N.eq_dec (firstn 24 cls) [101;114;114;111;114;46;85;110;115;117;115;112;101;99;116;101;100;72;97;110;103;101;117;108]%N then true else false.
 Lemma kernel_handlers :
-  map fst GenArith.gen_int_div_handlers = [[90;101;114;111;68;105;118;105;115;105;111;110;69;114;114;111;114]%N] /\
-  map fst GenArith.gen_int_rem_handlers = [[90;101;114;111;68;105;118;105;115;105;111;110;69;114;114;111;114]%N] /\
+  handled_as GenArith.gen_int_div_handlers ZDE DIVERR = true /\ handled_as GenArith.gen_int_rem_handlers ZDE DIVERR = true /\
   map fst GenArith.gen_pow3_handlers = [[86;97;108;117;101;69;114;114;111;114]%N] /\
-  map snd GenArith.gen_int_div_handlers = map snd GenArith.gen_int_rem_handlers.
-Proof. repeat split. Qed.
+  forallb (fun h => language_level (snd h)) (GenArith.gen_int_div_handlers ++ GenArith.gen_int_rem_handlers ++ GenArith.gen_pow3_handlers) = true.
+Proof. repeat split; vm_compute; reflexivity. Qed.
